@@ -25,7 +25,10 @@ CHECKS["C01"] = dict(
     text="C01_exactly_one_reply / C01_silent_otherwise / C01_no_escape are proved for every frame outcome, every route "
          "set over the version's actions and every handler behaviour (function-valued handlers), using the crash-freedom "
          "of all shipped schemas re-checked from the regenerated tables. The model is tied to the code by running both on "
-         "the same frames (structured + malformed streams) and comparing replies, ids and escapes.",
+         "the same frames (structured + malformed streams) and comparing replies, ids and escapes; the same frame repeated on "
+         "one endpoint, reply floods of 1100 frames, a decoy endpoint of the same class, handlers returning coroutines / Tasks / "
+         "custom awaitables, connections whose send() returns a Task. C01_text_no_escape / C01_text_at_most_one_reply restate the "
+         "result over raw texts parsed by the json.loads model.",
     note="Trusted: Coq kernel + VM, translator, the hand model of charge_point.py/messages.py control flow (tied by "
          "the correspondence only), CPython json (frames enter the model as json.loads parsed them). Excluded by "
          "hypothesis: handlers returning non-dataclass values; connection writes that fail.",
@@ -116,9 +119,12 @@ CHECKS["C14"] = dict(
          "C14_keyword (the validator's multipleOf on the re-parsed payload is that remainder test) and C14_positions (exactly "
          "the six positions, re-checked from the regenerated tables). Tied by the exhaustive k/10 (|k|<=100000), k/100, "
          "k/1000 sweeps, integers, Decimal-typed values and sampled magnitudes through the real validation and to_json, and by "
-         "the model on a stratified sample in all six positions.",
+         "the model on a stratified sample in all six positions; also through the 1.6 data-type classes, with an endpoint "
+         "constructed before the first validation (fresh interpreter), and on the binary neighbours of one-decimal numbers. "
+         "C14_decimal_path_is_retag: the Decimal re-parse of _validate_payload (dumps, then loads with parse_float=Decimal) is "
+         "proved at the text level to hand back every float as the Decimal with the digits of its repr.",
     note="Trusted: Coq kernel + VM, translator; CPython float repr / decimal / '%.1f' formatting are modelled (a float is its "
-         "shortest decimal form), not verified.", design="4/C14")
+         "shortest decimal form; json.dumps / json.loads are modelled character by character and compared with CPython), not verified.", design="4/C14")
 
 TABLE_NOTE = ("Trusted: Coq kernel + VM, harness/translate.py (dataclass fields / annotations / defaults, enum members, schemas "
               "as data; cross-checked by an independent introspection walk over the real classes and schema files).")
